@@ -142,10 +142,16 @@ Definition types (W : world) (v : value) : list cref :=
   flat_map (fun u => match type_of u with Some c => [c] | None => [] end) (subs W v).
 
 (* ---------- build_imports ---------------------------------------------------- *)
-(* name = __qualname__.split(".")[0] *)
-Definition import_pair (c : cref) : import_line := (fst c, hd [] (snd c)).
+(* module == "datetime": "import datetime\n"; else name = __qualname__.split(".")[0] and
+   f"from {module} import {name}\n" *)
+Definition m_stdlib_datetime : str := lit "datetime".
+Definition import_pair (c : cref) : import_line :=
+  if str_eqb (fst c) m_stdlib_datetime then (fst c, None) else (fst c, Some (hd [] (snd c))).
 Definition import_text (p : import_line) : str :=
-  lit "from " ++ fst p ++ lit " import " ++ snd p ++ [10%N].
+  match snd p with
+  | Some n => lit "from " ++ fst p ++ lit " import " ++ n ++ [10%N]
+  | None => lit "import " ++ fst p ++ [10%N]
+  end.
 
 Fixpoint str_ltb (a b : str) : bool :=
   match a, b with
@@ -226,7 +232,8 @@ Definition wf_local (W : world) (v : value) : bool :=
   | VPeriod d => dq_safe d
   | VStd k args => Nat.eqb (length args) (match k with SDate => 3 | STime => 4 | SDateTime => 7 end)%nat
   | VEnum c m => enum_has W c m && match lib_kind c with None => true | Some _ => false end
-                 && match snd c with [] => false | _ => true end && nospace (fst c)
+                 && match snd c with [] => false | _ => true end
+                 && negb (str_eqb (fst c) m_stdlib_datetime) && nospace (fst c)
   | VDict kv => forallb scalar_key (map fst kv) && keys_distinct (map fst kv)
   | VSet _ l => forallb scalar_key l && keys_distinct l
   | VObj c fs =>
@@ -237,6 +244,7 @@ Definition wf_local (W : world) (v : value) : bool :=
           && forallb (fun fd => f_init fd || match default_of fd with Some _ => true | None => false end) fds
           && match lib_kind c with None => true | Some _ => false end
           && match snd c with [] => false | _ => true end
+          && negb (str_eqb (fst c) m_stdlib_datetime)
           && nospace (fst c)
       | None => false
       end
@@ -269,22 +277,21 @@ Definition g_init_local (W : world) (v : value) : bool :=
       end
   | _ => true
   end.
-(* G6 datetime.date/time/datetime values are written datetime.date(...) while the import
-   line is `from datetime import date` *)
-Definition g_std_local (v : value) : bool := match v with VStd _ _ => false | _ => true end.
-(* G3 two imported names collide (the later import line shadows the earlier one), or
-   an imported name shadows a builtin the rendering relies on *)
+(* (G6, datetime.date/time/datetime values written module-qualified while the import line was
+   `from datetime import date`: repaired in /repo db048b1, clause deleted) *)
+(* G3 two import lines bind the same name to different things (the later line shadows the
+   earlier one), or an imported name shadows a builtin the rendering relies on *)
 Definition pair_compatible (a b : import_line) : bool :=
-  negb (str_eqb (snd a) (snd b)) || str_eqb (fst a) (fst b).
+  negb (str_eqb (bound_name a) (bound_name b))
+  || (str_eqb (fst a) (fst b) && Bool.eqb (is_from a) (is_from b)).
 Definition g_names (ps : list import_line) : bool :=
-  forallb (fun a => negb (is_builtin (snd a)) && forallb (pair_compatible a) ps) ps.
+  forallb (fun a => negb (is_builtin (bound_name a)) && forallb (pair_compatible a) ps) ps.
 
 Definition g_init (W : world) (v : value) : bool := forallb (g_init_local W) (subs W v).
 Definition g_imports (W : world) (v : value) : bool := g_names (map import_pair (types W v)).
-Definition g_std (W : world) (v : value) : bool := forallb g_std_local (subs W v).
 
 Definition guard (W : world) (v : value) : bool :=
-  g_imports W v && g_init W v && g_std W v.
+  g_imports W v && g_init W v.
 
 (* ---------- model of "render, exec in a fresh namespace, compare" ---------- *)
 Definition exec_back (W : world) (v : value) : option value :=
